@@ -49,9 +49,11 @@ def gen_random(rng, n_pairs, n_lists):
         yield ("reduce", rng.choice(PULSES), evs)
 
 
-def run_impl(case, Event, hb, labels):
+def run_impl(case, Event, hb, labels, objs=None):
+    """`objs` (round 3, harness/c08_hist.py): the live objects of a call sequence instead of fresh ones"""
     kind, p, evs = case
-    objs = [mk_event(Event, t, d, copy.deepcopy(x)) for t, d, x in evs]
+    if objs is None:
+        objs = [mk_event(Event, t, d, copy.deepcopy(x)) for t, d, x in evs]
     if kind == "merge":
         m = hb.heartbeat_merge(objs[0], objs[1], p)
         return None if m is None else [ev_view(m, labels)]
@@ -59,11 +61,12 @@ def run_impl(case, Event, hb, labels):
 
 
 def oracle(case, out, Event, hb, labels):
-    """The property statement, evaluated on the implementation's own answers."""
+    """The property statement, evaluated on the implementation's own answers.
+    An event of the case is (ts, dur, data) or (ts, dur, data, id): ids are carried along (round 3)."""
     kind, p, evs = case
     P = pulse_us(p)
     if kind == "merge":
-        (lt, ld, lx), (ht, hd, hx) = evs
+        (lt, ld, lx, *_), (ht, hd, hx, *_) = evs
         should = (lx == hx) and lt <= ht <= lt + ld + P and ld >= 0
         if should != (out is not None):
             return f"merge iff rule: expected merged={should}, got {out}"
@@ -74,8 +77,8 @@ def oracle(case, out, Event, hb, labels):
         return None
     # reduce: left fold of the implementation's own merge
     acc = []
-    for t, d, x in evs:
-        e = mk_event(Event, t, d, copy.deepcopy(x))
+    for t, d, x, *i in evs:
+        e = mk_event(Event, t, d, copy.deepcopy(x), *i)
         if acc:
             m = hb.heartbeat_merge(acc[-1], e, p)
             if m is not None:
@@ -89,10 +92,10 @@ def oracle(case, out, Event, hb, labels):
         if labels.value(a[3]) == labels.value(b[3]) and a[1] <= b[1] <= a[1] + a[2] + P and a[2] >= 0:
             return f"two consecutive outputs are mergeable: {a} {b}"
     again = [ev_view(e, labels) for e in
-             hb.heartbeat_reduce([mk_event(Event, t, d, copy.deepcopy(labels.value(x))) for _, t, d, x in out], p)]
+             hb.heartbeat_reduce([mk_event(Event, t, d, copy.deepcopy(labels.value(x)), i) for i, t, d, x in out], p)]
     if again != out:
         return f"reduce is not idempotent: {out} -> {again}"
-    for t, d, x in evs:
+    for t, d, x, *_ in evs:
         if d >= 0 and not any(o[1] <= t and t + d <= o[1] + o[2] and labels.value(o[3]) == x for o in out):
             return f"input interval ({t},{d}) not covered"
     return None
@@ -114,7 +117,13 @@ def main(argv=None):
     impl = []
     for case in cases:
         kind, p, evs = case
-        out = run_impl(case, Event, hb, labels)
+        try:
+            out = run_impl(case, Event, hb, labels)
+        except Exception as ex:  # noqa: BLE001    the statement is about all pairs / lists: the functions return
+            ck.failing_input("C08:raises", f"heartbeat_{kind} raised {type(ex).__name__}: {str(ex)[:120]}",
+                             {"call": kind, "pulsetime_s": p, "events": [(t, d, x) for t, d, x in evs]})
+            ck.count(kind + ":raised")
+            out = "raised"
         impl.append(out)
         views = [ev_wire((None, t, d, labels.label(x))) for t, d, x in evs]
         if kind == "merge":
@@ -123,6 +132,8 @@ def main(argv=None):
             wire.append(sx([1, pulse_us(p), views]))
         ck.count(kind)
         ck.count("len=%d" % len(evs))
+        if out == "raised":
+            continue
         merged_some = (out is not None) if kind == "merge" else (len(out) < len(evs))
         ck.count("merged" if merged_some else "not-merged")
         same_data = any(a[2] == b[2] for a, b in zip(evs, evs[1:]))
@@ -130,13 +141,20 @@ def main(argv=None):
         if len(ck.samples) < 4 and merged_some and len(evs) >= 2:
             ck.sample({"kind": kind, "pulsetime_s": p, "events_us_rel": [(t - BASE, d, x) for t, d, x in evs],
                        "impl": [list(o) for o in out]})
-        bad = oracle(case, out, Event, hb, labels)
+        try:
+            bad = oracle(case, out, Event, hb, labels)
+        except Exception as ex:  # noqa: BLE001    the oracle re-applies the implementation's own merge / reduce
+            bad = f"raises: heartbeat_merge / heartbeat_reduce raised {type(ex).__name__} while the statement was evaluated on {out}"
         if bad:
             ck.failing_input("C08:" + bad.split(":")[0], bad,
                              {"call": kind, "pulsetime_s": p, "events": [(t, d, x) for t, d, x in evs], "impl_output": out})
+    from . import c08_hist          # round 3: the package-level names, call sequences on live objects, >= 10 001 heartbeats
+    c08_hist.run(ck, sys.modules[__name__], Event, hb, labels, have_driver, cases)
     if have_driver:
         model = common.run_driver("C08", wire)
         for case, w, mo, io in zip(cases, wire, model, impl):
+            if io == "raised":       # already reported
+                continue
             mo_c = None if (case[0] == "merge" and mo == []) else [ev_unwire(e) for e in mo]
             io_c = None if io is None else [tuple(e) for e in io]
             if mo_c != io_c:
